@@ -81,6 +81,10 @@ func (d *mapDecoder) DecodeStream(s *Stream, depth int64, p unsafe.Pointer) erro
 		**(**unsafe.Pointer)(unsafe.Pointer(&p)) = nil
 		return nil
 	case '{':
+		if invalid, ok := d.keyDecoder.(*invalidDecoder); ok {
+			// the key type cannot hold an object key: an error even for {}
+			return invalid.DecodeStream(s, depth, p)
+		}
 	default:
 		return errors.ErrExpected("{ character for map value", s.totalOffset())
 	}
@@ -143,6 +147,10 @@ func (d *mapDecoder) Decode(ctx *RuntimeContext, cursor, depth int64, p unsafe.P
 		**(**unsafe.Pointer)(unsafe.Pointer(&p)) = nil
 		return cursor, nil
 	case '{':
+		if invalid, ok := d.keyDecoder.(*invalidDecoder); ok {
+			// the key type cannot hold an object key: an error even for {}
+			return invalid.Decode(ctx, cursor, depth, p)
+		}
 	default:
 		return 0, errors.ErrExpected("{ character for map value", cursor)
 	}
